@@ -85,6 +85,21 @@ impl Gf {
         g
     }
 
+    /// prod_{i in roots} (x - alpha^i), coefficients highest degree first.
+    pub fn generator_for_roots(&self, roots: &[usize]) -> Vec<u8> {
+        let mut g = vec![1u8];
+        for i in roots {
+            let a = self.alpha_pow(*i);
+            let mut ng = vec![0u8; g.len() + 1];
+            for (d, c) in g.iter().enumerate() {
+                ng[d] ^= *c;
+                ng[d + 1] ^= self.mul(*c, a);
+            }
+            g = ng;
+        }
+        g
+    }
+
     /// Polynomial product, highest degree first.
     pub fn poly_mul(&self, a: &[u8], b: &[u8]) -> Vec<u8> {
         if a.is_empty() || b.is_empty() {
